@@ -1,1 +1,455 @@
-"""(job kinds registered here)"""
+"""C12 (target / exclude / root closure) and C13 (debug nodes) jobs."""
+from __future__ import annotations
+
+import itertools
+import random
+
+import networkx as nx
+
+from . import bootstrap as B
+from . import probes, spec as S
+from .cpjobs import all_shapes
+from .jobs import REGISTRY, Collector, job
+from .sym import Sym, same, short
+
+
+def mk_sel_spec(n, edges, rng, setup=(), debug=(), tags=None, with_param=(), mc=None, kw_edges=()):
+    fns, nodes = {}, []
+    for i in range(n):
+        fns["f%d" % i] = dict(priority=rng.choice([0, 0, 1, 3, -1]), is_sequential=rng.random() < 0.1,
+                              resource=rng.choice(["thread", "thread", "async-thread", "main-thread"]),
+                              setup=i in setup, debug=i in debug, tag=(tags or {}).get(i))
+        nd = {"fn": "f%d" % i, "args": [], "kwargs": {}, "active": None}
+        for (j, k) in edges:
+            if k == i:
+                if (j, k) in kw_edges:
+                    nd["kwargs"]["k%d" % j] = ["n", j, []]
+                else:
+                    nd["args"].append(["n", j, []])
+        if i in with_param:
+            nd["args"].append(["p", "x"])
+        nodes.append(nd)
+    return {"name": "prog", "params": ["x"], "defaults": {"x": 7}, "fns": fns, "nodes": nodes,
+            "ret": ["tuple", [["n", i, []] for i in range(n)]], "mc": mc or rng.randint(1, 3), "is_async": False}
+
+
+def alias_of(rng, d, spec, ids, i, tags, form=None):
+    """An alias for call site i in one of the accepted forms; returns (alias, set of sites it denotes)."""
+    forms = ["id", "node"]
+    t = (tags or {}).get(i)
+    if t is not None:
+        forms.append("tag")
+    form = form or rng.choice(forms)
+    if form == "node":
+        return d.get_node_by_id(ids[i]), resolve_alias(ids[i], ids, tags, by_node=True)
+    if form == "tag":
+        return t, resolve_alias(t, ids, tags)
+    return ids[i], resolve_alias(ids[i], ids, tags)
+
+
+def resolve_alias(s, ids, tags, by_node=False):
+    """Documented resolution: a string is first a tag (all call sites carrying it), otherwise a node id."""
+    if by_node:
+        return {ids.index(s)}
+    tagged = {i for i, t in (tags or {}).items() if t == s or (isinstance(t, (list, tuple)) and s in t)}
+    if tagged:
+        return tagged
+    if s in ids:
+        return {ids.index(s)}
+    return None
+
+
+def expected_closure(spec, R, X, T):
+    """None when the triple is invalid (ValueError expected)."""
+    g = S.site_graph(spec)
+    roots = {i for i in g.nodes if g.in_degree(i) == 0 and not spec["nodes"][i]["args"] and not spec["nodes"][i]["kwargs"]}
+    if R is not None and not set(R) <= roots:
+        return None
+    return S.closure(spec, R, X, T)
+
+
+def run_executor(d, kw, args):
+    from tawazi import AsyncDAG
+    import asyncio
+
+    def thunk():
+        ex = d.executor(**kw)
+        if isinstance(d, AsyncDAG):
+            async def main():
+                return await ex(*args)
+
+            return asyncio.run(main())
+        return ex(*args)
+
+    B.reset_log()
+    probes.reset_counts()
+    res = probes.run_op("executor", thunk)
+    return res, B.snapshot()
+
+
+def check_selection(col, pid, spec, d, plain, ids, tags, R, X, T, kw, rp, args, env_values=None, debug=()):
+    exp = expected_closure(spec, R, X, T)
+    res, log = run_executor(d, kw, args)
+    entered = [e["node"] for e in log if e["kind"] == "FENTER"]
+    col.evaluations += 1
+    col.counters["c12_executor_runs"] += 1
+    if exp is None:
+        col.counters["c12_invalid_triples"] += 1
+        if res[0] == "ok" or not isinstance(res[1], ValueError):
+            col.violation(pid, "invalid_selection_did_not_raise_ValueError", dict(
+                selection=S.jsonable(kw), outcome=short(res), source=S.render(spec)), rp)
+        if entered:
+            col.violation(pid, "nodes_ran_although_selection_invalid", dict(selection=S.jsonable(kw), entered=entered), rp)
+        return None
+    col.counters["c12_valid_triples"] += 1
+    if res[0] != "ok":
+        col.violation(pid, "valid_selection_raised", dict(selection=S.jsonable(kw), exc=repr(res[1])[:300], closure=sorted(exp),
+                                                         source=S.render(spec)), rp)
+        return None
+    pre = set(env_values or ())
+    exp_run = {ids[i] for i in exp if i not in pre and i not in debug}
+    got_run = set(entered)
+    if got_run != exp_run or len(entered) != len(got_run):
+        col.violation(pid, "executed_set_differs_from_documented_closure", dict(
+            selection=S.jsonable(kw), executed=sorted(entered), closure=sorted(exp_run), source=S.render(spec)), rp)
+    ref = S.run_reference(spec, args, plain, enabled=exp - set(debug), env_values=env_values)
+    if ref[0] == "ok":
+        col.counters["c12_value_checks"] += 1
+        if not same(ref[1].result, res[1]):
+            col.violation(pid, "returned_values_not_real_values_or_None", dict(
+                selection=S.jsonable(kw), expected=short(ref[1].result, 400), got=short(res[1], 400), source=S.render(spec)), rp)
+    return exp
+
+
+def triples_for(spec, rng, exhaustive, limit=None):
+    g = S.site_graph(spec)
+    n = len(spec["nodes"])
+    roots = [i for i in range(n) if g.in_degree(i) == 0 and not spec["nodes"][i]["args"] and not spec["nodes"][i]["kwargs"]]
+    out = []
+    r_opts = [None] + [list(c) for k in range(1, len(roots) + 1) for c in itertools.combinations(roots, k)]
+    for R in r_opts:
+        part = S.closure(spec, R, None, None)
+        x_opts = [None] + [list(c) for k in (1, 2) for c in itertools.combinations(sorted(part), k)]
+        for X in x_opts:
+            t_opts = [None] + [list(c) for k in range(0, n + 1) for c in itertools.combinations(range(n), k)]
+            for T in t_opts:
+                out.append((R, X, T))
+    if not exhaustive and limit and len(out) > limit:
+        out = rng.sample(out, limit)
+    return out
+
+
+def run_shape(col, pid, rng, n, edges, exhaustive, limit, with_setup=False, with_tags=True):
+    tags = {}
+    if with_tags:
+        for i in range(n):
+            r = rng.random()
+            if r < 0.25:
+                tags[i] = "T%d" % rng.randrange(2)  # possibly shared
+            elif r < 0.35 and n > 1:
+                tags[i] = "f%d" % rng.choice([j for j in range(n) if j != i])  # a tag equal to ANOTHER node's id
+    g0 = nx.DiGraph()
+    g0.add_nodes_from(range(n))
+    g0.add_edges_from(edges)
+    setup = set()
+    if with_setup:
+        # a setup node may only depend on setup nodes: choose an ancestor-closed set
+        for i in range(n):
+            if all(j in setup for j in g0.predecessors(i)) and rng.random() < 0.5:
+                setup.add(i)
+    kw_edges = {e for e in edges if rng.random() < 0.3}
+    with_param = {i for i in range(n) if i not in setup and g0.in_degree(i) > 0 and rng.random() < 0.3}
+    spec = mk_sel_spec(n, edges, rng, setup=setup, tags=tags, with_param=with_param, kw_edges=kw_edges)
+    spec["is_async"] = rng.random() < 0.25
+    plain = {name: probes.mkprobe(name) for name in spec["fns"]}
+    ids = S.node_ids(spec)
+    rp = {"kind": "sel_case", "n": n, "edges": edges, "spec": spec, "source": S.render(spec)}
+    d = None
+    trs = triples_for(spec, rng, exhaustive, limit)
+    env_values = {}
+    for (R, X, T) in trs:
+        if d is None or setup:
+            d, _e, _p = S.build_tawazi(spec, plain=plain)
+            env_values = {}
+        kw = {}
+        denoted_ok = True
+        for name, sites in (("root_nodes", R), ("exclude_nodes", X), ("target_nodes", T)):
+            if sites is None:
+                continue
+            al = []
+            for i in sites:
+                a, den = alias_of(rng, d, spec, ids, i, tags)
+                al.append(a)
+                if den != {i}:
+                    denoted_ok = False  # the alias denotes other / more call sites: recompute the triple it really means
+            kw[name] = al
+        if not denoted_ok:
+            def expand(sites, al):
+                if sites is None:
+                    return None
+                out = []
+                for a in al:
+                    den = resolve_alias(a, ids, tags) if isinstance(a, str) else {ids.index(a.id)}
+                    out.extend(sorted(den))
+                return out
+
+            R2, X2, T2 = expand(R, kw.get("root_nodes")), expand(X, kw.get("exclude_nodes")), expand(T, kw.get("target_nodes"))
+            part = S.closure(spec, R2, None, None) if expected_closure(spec, R2, None, None) is not None else None
+            if X2 is not None and (part is None or not set(X2) <= part):
+                col.counters["skipped_exclude_outside_root_part"] += 1
+                continue
+            R, X, T = R2, X2, T2
+            col.counters["c12_alias_denotes_other_sites"] += 1
+        args = [Sym("arg", rng.randrange(1 << 30))] if rng.random() < 0.7 else []
+        rp2 = dict(rp, triple=[R, X, T], kw=S.jsonable(kw))
+        exp = check_selection(col, pid, spec, d, plain, ids, tags, R, X, T, kw, rp2, args, env_values=env_values)
+        if exp is not None and n >= 2:
+            col.hashes.add(S.spec_hash({"e": sorted(edges), "n": n, "s": sorted(setup), "t": [R, X, T]}))
+        if col.evaluations % 500 == 2:
+            col.sample(dict(source=S.render(spec), tags=tags, setup=sorted(setup), selection=S.jsonable(kw), closure=sorted(exp) if exp is not None else "invalid -> ValueError"))
+    # invalid alias / non-root root
+    d, _e, _p = S.build_tawazi(spec, plain=plain)
+    res, log = run_executor(d, {"target_nodes": ["no_such_node"]}, [])
+    col.counters["c12_unknown_alias_cases"] += 1
+    col.evaluations += 1
+    if res[0] == "ok" or not isinstance(res[1], ValueError) or any(e["kind"] == "FENTER" for e in log):
+        col.violation(pid, "unknown_alias_did_not_raise_ValueError", dict(outcome=short(res), source=S.render(spec)), rp)
+    nonroots = [i for i in range(n) if g0.in_degree(i) > 0]
+    if nonroots:
+        i = rng.choice(nonroots)
+        if resolve_alias(ids[i], ids, tags) == {i}:
+            res, log = run_executor(d, {"root_nodes": [ids[i]]}, [])
+            col.counters["c12_non_root_cases"] += 1
+            col.evaluations += 1
+            if res[0] == "ok" or not isinstance(res[1], ValueError) or any(e["kind"] == "FENTER" for e in log):
+                col.violation(pid, "non_root_in_root_nodes_did_not_raise_ValueError", dict(outcome=short(res), root=ids[i], source=S.render(spec)), rp)
+
+
+@job("sel")
+def job_sel(j):
+    rng = random.Random(j["seed"])
+    col = Collector()
+    pid = j.get("pid", "C12")
+    for n in j.get("exhaustive_n", []):
+        shapes = list(all_shapes(n))
+        for k, edges in enumerate(shapes):
+            if k % j.get("nparts", 1) != j.get("part", 0):
+                continue
+            run_shape(col, pid, rng, n, edges, True, None, with_setup=(rng.random() < 0.3))
+            col.counters["shapes_enumerated_n%d" % n] += 1
+    for _ in range(j.get("random_shapes", 0)):
+        n = rng.randint(j.get("nmin", 4), j.get("nmax", 8))
+        edges = [(a, b) for b in range(n) for a in range(b) if rng.random() < 0.3]
+        run_shape(col, pid, rng, n, edges, False, j.get("triples_per_shape", 30), with_setup=(rng.random() < 0.4))
+        col.counters["random_shapes"] += 1
+    return col.result()
+
+
+def _replay_sel(j, rp):
+    col = Collector(max_per_mech=20)
+    rng = random.Random(0)
+    spec = rp["spec"]
+    ids = S.node_ids(spec)
+    plain = {name: probes.mkprobe(name) for name in spec["fns"]}
+    tags = {i: spec["fns"][nd["fn"]].get("tag") for i, nd in enumerate(spec["nodes"]) if spec["fns"][nd["fn"]].get("tag") is not None}
+    trs = [tuple(rp["triple"])] if rp.get("triple") else triples_for(spec, rng, False, 200)
+    for (R, X, T) in trs:
+        d, _e, _p = S.build_tawazi(spec, plain=plain)
+        kw = {}
+        for name, sites in (("root_nodes", R), ("exclude_nodes", X), ("target_nodes", T)):
+            if sites is not None:
+                kw[name] = [d.get_node_by_id(ids[i]) for i in sites]
+        check_selection(col, j.get("pid", "C12"), spec, d, plain, ids, tags, R, X, T, kw, rp, [Sym("arg", 1)])
+    return col.result()
+
+
+REGISTRY["replay:sel_case"] = _replay_sel
+
+
+# ------------------------------------------------------------------------------------------------ C13 debug nodes
+def run_any(d, op, kw, args):
+    from tawazi import AsyncDAG
+    import asyncio
+
+    is_async = isinstance(d, AsyncDAG)
+
+    def thunk():
+        if op == "call":
+            f = d
+        elif op == "executor":
+            f = d.executor(**kw)
+        else:
+            if is_async:
+                return asyncio.run(d.setup(**kw))
+            return d.setup(**kw)
+        if is_async:
+            async def main():
+                return await f(*args)
+
+            return asyncio.run(main())
+        return f(*args)
+
+    B.reset_log()
+    probes.reset_counts()
+    res = probes.run_op(op, thunk)
+    return res, B.snapshot()
+
+
+def dbg_shape(col, pid, rng, n, edges):
+    from tawazi.config import cfg
+
+    g0 = nx.DiGraph()
+    g0.add_nodes_from(range(n))
+    g0.add_edges_from(edges)
+    debug = set()
+    for i in range(n):
+        # a non-debug node may not depend on a debug node: debug set is descendant-closed
+        if any(j in debug for j in g0.predecessors(i)) or rng.random() < 0.3:
+            debug.add(i)
+    setup = set()
+    for i in range(n):
+        if i not in debug and all(j in setup for j in g0.predecessors(i)) and rng.random() < 0.2:
+            setup.add(i)
+    spec = mk_sel_spec(n, edges, rng, setup=setup, debug=debug)
+    spec["is_async"] = rng.random() < 0.25
+    plain = {name: probes.mkprobe(name) for name in spec["fns"]}
+    ids = S.node_ids(spec)
+    rp = {"kind": "dbg_case", "n": n, "edges": edges, "spec": spec, "source": S.render(spec), "debug": sorted(debug)}
+    g = S.site_graph(spec)
+    roots = [i for i in range(n) if g.in_degree(i) == 0]
+    ops = [("call", {}, None)]
+    for _ in range(5):
+        R = rng.sample(roots, rng.randint(1, len(roots))) if roots and rng.random() < 0.3 else None
+        part = S.closure(spec, R, None, None)
+        X = [rng.choice(sorted(part))] if part and rng.random() < 0.3 else None
+        rest = S.closure(spec, R, X, None)
+        T = rng.sample(sorted(rest), rng.randint(0, min(3, len(rest)))) if rest and rng.random() < 0.7 else None
+        kw = {}
+        if R is not None:
+            kw["root_nodes"] = [ids[i] for i in R]
+        if X is not None:
+            kw["exclude_nodes"] = [ids[i] for i in X]
+        if T is not None:
+            kw["target_nodes"] = [ids[i] for i in T]
+        ops.append(("executor", kw, (R, X, T)))
+    ops.append(("setup", {}, None))
+    if rng.random() < 0.5:
+        t = rng.randrange(n)
+        ops.append(("setup", {"target_nodes": [ids[t]]}, None))
+    old = cfg.RUN_DEBUG_NODES
+    try:
+        for op, kw, triple in ops:
+            outs = {}
+            for flag in (False, True):
+                cfg.RUN_DEBUG_NODES = flag
+                d, _e, _p = S.build_tawazi(spec, plain=plain)
+                args = [Sym("arg", 5)]
+                res, log = run_any(d, op, kw, args if op != "setup" else [])
+                col.evaluations += 1
+                col.counters["c13_runs_flag_%s" % ("on" if flag else "off")] += 1
+                ent = {}
+                for e in log:
+                    if e["kind"] == "FENTER":
+                        ent.setdefault(e["node"], []).append((e["args"], e["kwargs"]))
+                outs[flag] = (res, ent)
+                rp2 = dict(rp, op=op, kw=S.jsonable(kw), flag=flag)
+                if res[0] != "ok":
+                    col.violation(pid, "operation_raised(flag_%s)" % ("on" if flag else "off"), dict(op=op, selection=S.jsonable(kw), exc=repr(res[1])[:300], source=S.render(spec), debug=[ids[i] for i in sorted(debug)]), rp2)
+                    continue
+                dbg_run = [x for x in ent if x in ids and ids.index(x) in debug]
+                if not flag:
+                    col.counters["c13_flag_off_checks"] += 1
+                    if dbg_run:
+                        col.violation(pid, "debug_node_ran_with_flag_off(%s)" % op, dict(op=op, selection=S.jsonable(kw), ran=dbg_run, source=S.render(spec), debug=[ids[i] for i in sorted(debug)]), rp2)
+                else:
+                    if op == "call":
+                        col.counters["c13_whole_call_flag_on"] += 1
+                        missing = [ids[i] for i in debug if len(ent.get(ids[i], [])) != 1]
+                        if missing:
+                            col.violation(pid, "whole_dag_call_did_not_run_every_debug_node_once", dict(missing_or_repeated=missing, source=S.render(spec)), rp2)
+                    if op == "setup" and dbg_run:
+                        col.violation(pid, "debug_node_ran_in_setup", dict(ran=dbg_run, selection=S.jsonable(kw), source=S.render(spec)), rp2)
+                    if op == "executor" and triple is not None:
+                        clos = S.closure(spec, *triple)
+                        if clos is not None:
+                            for x in dbg_run:
+                                i = ids.index(x)
+                                if i in clos:
+                                    continue
+                                col.counters["c13_pulled_in_debug_nodes"] += 1
+                                # pulled in by the debug rule: every dependency must have executed (or be precomputed)
+                                for j, _k in S.deps_of(spec["nodes"][i]):
+                                    if ids[j] not in ent:
+                                        col.violation(pid, "pulled_in_debug_node_misses_an_input", dict(
+                                            node=x, missing_dependency=ids[j], selection=S.jsonable(kw), source=S.render(spec),
+                                            debug=[ids[q] for q in sorted(debug)]), rp2)
+                                        break
+            a, b = outs[False], outs[True]
+            if a[0][0] == "ok" and b[0][0] == "ok":
+                col.counters["c13_on_off_comparisons"] += 1
+                nd_a = {x: v for x, v in a[1].items() if x in ids and ids.index(x) not in debug}
+                nd_b = {x: v for x, v in b[1].items() if x in ids and ids.index(x) not in debug}
+                if set(nd_a) != set(nd_b):
+                    col.violation(pid, "non_debug_executed_set_depends_on_flag", dict(op=op, selection=S.jsonable(kw), off=sorted(nd_a), on=sorted(nd_b), source=S.render(spec), debug=[ids[i] for i in sorted(debug)]), rp)
+                else:
+                    for x in nd_a:
+                        if not (same(tuple(nd_a[x][0][0]), tuple(nd_b[x][0][0])) and same(nd_a[x][0][1], nd_b[x][0][1])):
+                            col.violation(pid, "non_debug_inputs_depend_on_flag", dict(node=x, op=op, selection=S.jsonable(kw)), rp)
+                            break
+                if op != "setup":
+                    ra, rb = a[0][1], b[0][1]
+                    if isinstance(ra, tuple) and isinstance(rb, tuple):
+                        for i in range(n):
+                            if i not in debug and not same(ra[i], rb[i]):
+                                col.violation(pid, "non_debug_value_depends_on_flag", dict(node=ids[i], off=short(ra[i]), on=short(rb[i]), op=op, selection=S.jsonable(kw), source=S.render(spec)), rp)
+                                break
+            if n >= 2 and debug:
+                col.hashes.add(S.spec_hash({"e": sorted(edges), "d": sorted(debug), "op": op, "kw": S.jsonable(kw)}))
+        if col.evaluations % 300 < 30:
+            col.sample(dict(source=S.render(spec), debug=[ids[i] for i in sorted(debug)], setup=[ids[i] for i in sorted(setup)],
+                            ops=[(o, S.jsonable(k)) for o, k, _t in ops][:4]))
+    finally:
+        cfg.RUN_DEBUG_NODES = old
+    # illegal DAG: a non-debug node depending on a debug node must be rejected at build time
+    if n >= 2 and edges:
+        j, k = rng.choice(edges)
+        bad = mk_sel_spec(n, edges, rng, debug={j})
+        if not bad["fns"]["f%d" % k]["debug"]:
+            col.counters["c13_illegal_build_cases"] += 1
+            col.evaluations += 1
+            try:
+                S.build_tawazi(bad)
+                col.violation(pid, "non_debug_depending_on_debug_was_not_rejected", dict(source=S.render(bad), debug=["f%d" % j]), rp)
+            except BaseException as e:  # noqa: BLE001
+                col.counters["c13_illegal_build_rejected"] += 1
+                if isinstance(e, (KeyboardInterrupt, SystemExit)):
+                    raise
+
+
+@job("dbg")
+def job_dbg(j):
+    rng = random.Random(j["seed"])
+    col = Collector()
+    pid = "C13"
+    for _ in range(j.get("random_shapes", 50)):
+        n = rng.randint(2, j.get("nmax", 8))
+        edges = [(a, b) for b in range(n) for a in range(b) if rng.random() < 0.3]
+        dbg_shape(col, pid, rng, n, edges)
+    for n in j.get("exhaustive_n", []):
+        shapes = list(all_shapes(n))
+        for k, edges in enumerate(shapes):
+            if k % j.get("nparts", 1) == j.get("part", 0):
+                dbg_shape(col, pid, rng, n, edges)
+                col.counters["shapes_enumerated_n%d" % n] += 1
+    return col.result()
+
+
+def _replay_dbg(j, rp):
+    col = Collector(max_per_mech=20)
+    rng = random.Random(0)
+    for _ in range(5):
+        dbg_shape(col, "C13", rng, rp["n"], [tuple(e) for e in rp["edges"]])
+    return col.result()
+
+
+REGISTRY["replay:dbg_case"] = _replay_dbg
